@@ -199,7 +199,45 @@ def gen_cases(tier, seed):
         cases.append(case)
     cases += by_name_cases(tier, rng)
     cases += option_battery_cases(tier, rng)
+    cases += menu_cases(tier, rng)
     return cases
+
+
+MENU_COMPS = [
+    [{"v": "apple", "tag": "fruits"}, {"v": "apricot", "tag": "fruits"}, {"v": "avocado", "tag": "fruits"}, {"v": "hammer", "tag": "tools"},
+     {"v": "handsaw", "tag": "tools"}, {"v": "hatchet", "tag": "tools"}],
+    [{"v": "foo1", "tag": "t1"}, {"v": "foo2", "tag": "t2", "desc": "d"}, {"v": "foo3", "tag": "t3"}, {"v": "fop", "tag": "t1", "desc": "d"}, {"v": "pa", "tag": "t3"}],
+    [{"v": "--all", "desc": "same"}, {"v": "-a", "desc": "same"}, {"v": "--almost", "desc": "other"}, {"v": "-A", "desc": "other"}, {"v": "--zed"}],
+    [{"v": "c%02d" % i, "desc": "d%d" % (i % 3)} for i in range(40)],
+    [{"v": "only"}],
+    [],
+]
+
+
+def menu_cases(tier, rng):
+    """K: sessions inside the completion menu: several tags, descriptions, aliases, long lists, one or no candidate; keys of the
+    menu keymap (cycling in both directions, next / previous tag, accept-and-menu-complete), the menu's own incremental search
+    (C-f) with texts that keep some, one or none of the candidates or empty whole groups, erasing, aborting, typing on"""
+    MK = [b"\t", b"\t", b"\x1b[Z", b"\x1b[A", b"\x1b[B", b"\x1b[C", b"\x1b[D", b"\x0e", b"\x10", b"\x1b[1;5A", b"\x1b[1;5B", b"\x00", b"\x06"]
+    TXT = [b"a", b"p", b"z", b"h", b"o", b"f", b"1", b"d", b"-", b"c0", b"zz"]
+    END = [b"\r", b"\x07", b"\x03", b"\x1b", b" ", b"x", b"\x7f"]
+    out = []
+    for i in range(60 if tier == "quick" else 900):
+        mode = "emacs" if i % 3 else "vi"
+        c = {"id": "c01menu-%d" % i, "inputrc": ("set editing-mode vi\n" if mode == "vi" else "") + case_options(rng, i), "w": rng.choice([80, 40, 20]),
+             "h": rng.choice([24, 8]), "prompt": "> ", "comp": {"cands": MENU_COMPS[i % len(MENU_COMPS)], "byword": i % 2 == 0}, "setups": [], "sessions": [],
+             "hangms": 10000, "sources": [{"name": "main", "kind": "mem", "lines": HISTORY}]}
+        for _ in range(20):
+            b = rng.choice(["", "", "a", "f", "fo", "x h", "-"])
+            c["setups"].append(setup(b, len(b), "emacs" if mode == "emacs" else "vi-insert"))
+            ks = [b"\t"] if rng.random() < 0.8 else [rng.choice([b"\x1b?", b"\x1b=", b"\x1b*"])]
+            for _ in range(rng.randint(1, 7)):
+                r = rng.random()
+                ks.append(rng.choice(MK) if r < 0.6 else rng.choice(TXT) if r < 0.85 else rng.choice([b"\x7f", b"\x06"]))
+            ks.append(rng.choice(END))
+            c["sessions"].append([SETUP_KEY] + [keys(k) for k in ks])
+        out.append(c)
+    return out
 
 
 def option_battery_cases(tier, rng):
